@@ -31,8 +31,11 @@ def _pair(rng, same_terms=False):
     if rng.random() < 0.15:
         # unsigned / narrow coefficient types on both sides (a difference of coefficients would wrap; a comparison does not),
         # poly or plain array of the same type on either side
-        dt = rng.choice(["uint8", "uint16", "uint32", "uint64", "int8"])
+        dt = rng.choice(["uint8", "uint16", "uint32", "uint64", "int8", "uint64", "int64"])
         pool = [0, 1, 2, 5, 200] if dt.startswith("u") else [-100, -1, 0, 1, 100]
+        if dt.endswith("64") and rng.random() < 0.6:
+            # 64-bit values that differ only below float64 precision (a promotion to float on one side would merge them)
+            pool = [2 ** 53, 2 ** 53 + 1, 2 ** 53 + 2, 2 ** 62 + 1, 2 ** 62 + 2] + ([2 ** 63 + 1, 2 ** 63 + 2] if dt == "uint64" else [-(2 ** 53) - 1])
         a = {"poly": rand_poly(rng, shape=s1, pool=pool, dtype=dt, maxterms=2)}
         b = {"poly": rand_poly(rng, shape=s2, pool=pool, dtype=dt, maxterms=2, names=a["poly"]["names"])} if rng.random() < 0.6 else \
             {"array": nested(rng, tuple(s2), pool), "dtype": dt}
@@ -63,8 +66,8 @@ def gen_cmp(tier, rng):
        functions=("numpoly.greater", "numpoly.greater_equal", "numpoly.less", "numpoly.less_equal", "numpoly.equal",
                   "numpoly.not_equal", "numpoly.glexsort", "numpoly.align_polynomials"),
        note="bounded: operands <=3 terms, <=3 indeterminates, 13 broadcastable shape pairs, near-equal operands, "
-            "all four sort option settings, operator / numpoly / numpy spellings; a seventh of the pairs in uint8/16/32/64 or int8 "
-            "(poly or plain array on either side)")
+            "all four sort option settings, operator / numpoly / numpy spellings; a seventh of the pairs in uint8/16/32/64, int8 or "
+            "int64 (poly or plain array on either side), the 64-bit ones mostly with values that differ only below float64 precision")
 def compare_order(inp):
     import numpoly
     x, y = operand(inp["a"]), operand(inp["b"])
@@ -94,7 +97,9 @@ def gen_ext(tier, rng):
     for _ in range(count(tier, 80, 800)):
         a, b = _pair(rng)
         if "poly" not in b:
-            b = {"poly": rand_poly(rng, shape=())}
+            # (same coefficient type as the other side: numpy promotes uint64 with int64 to float64, which rounds 64-bit values)
+            b = {"poly": rand_poly(rng, shape=(), dtype=a["poly"].get("dtype", "int64") if "poly" in a else b.get("dtype", "int64"),
+                                   pool=[0, 1, 2, 5] if str(a.get("poly", b).get("dtype", "int64")).startswith("u") else None)}
         yield {"a": a, "b": b, "which": rng.choice(["maximum", "minimum"]), "via": rng.choice(["numpoly", "numpy"]),
                "graded": rng.random() < 0.5, "reverse": rng.random() < 0.5}
 
